@@ -1,3 +1,5 @@
+from functools import lru_cache
+
 from excel2pycl.src.cell import Cell
 from excel2pycl.src.exceptions import E2PyclParserException
 from excel2pycl.src.tokens.base_token import BaseToken
@@ -17,6 +19,14 @@ class CompositeBaseToken(BaseToken):
 
     @classmethod
     def get(cls, expression: list, in_cell: Cell):
+        # the token sets of a class begin alike, so that the same rest of a formula is met again and again:
+        # every rest is parsed once for a class
+        return cls._get(tuple(expression), in_cell)
+
+    @classmethod
+    @lru_cache(maxsize=None)
+    def _get(cls, expression: tuple, in_cell: Cell):
+        expression = list(expression)
         control_construction_flag = False
         for tokens in cls.get_token_sets():
             new_expression_part = []
